@@ -164,6 +164,9 @@ struct GenOpts {
                                    ///< segment each): the intercepts' bitvector gets sparse stretches after a dense prefix (select long superblocks)
     bool force_bimodal = false;    ///< C19: the bimodal class unconditionally (a large destination object)
     bool ef_bimodal = false;       ///< Elias-Fano: about 1 case in 250: >= 10^5 minimal segments packed into a tiny part of a huge key space (select long-superblock path)
+    bool exact_segments = false;   ///< sdsl-backed variants: about 1 case in 10 (size hint >= 40): G groups of 2*eps+2.. consecutive keys separated by jumps no
+                                   ///< segment can bridge, so the index has exactly G bottom segments; G sits on the block boundaries of the succinct
+                                   ///< structures (multiples of 64 and 4096, powers of two, +-3)
     bool allow_giant = false;      ///< about 1 case in 400: n around / above 2^24 built from <= 300 distinct keys with huge duplicate runs (ranks > 2^24)
     size_t span_multiple_edge = 0; ///< Bucketing: 1/4 of the arrays end so that (last - first) is m*M + d, d in {-1,0,+1}, M = this value
     bool pow2_span_edge = false; ///< Elias-Fano: 1/4 of the arrays end so that (last segment key - first key) is 2^k-3 .. 2^k (universe-size edge)
@@ -390,6 +393,43 @@ std::vector<K> gen_keys(TapeReader &t, const GenOpts &o, KeyMeta &meta) {
         rec << "class=giant n=" << meta.n << " distinct=" << d << " threads=" << meta.threads;
         meta.recipe = rec.str();
         if (keys.size() != n) throw HarnessBug("giant class: wrong size");
+        return keys;
+    }
+
+    // ---- "exact_segments" class: the number of bottom-level segments is chosen, not observed.  A group of L >= 2*eps+2 consecutive keys
+    //      forces a slope >= 1/(2*eps+1); after a jump of more than (L+2*eps)*(2*eps+1) positions no line within eps of the group reaches
+    //      the next key, so every group is exactly one segment.
+    if (o.exact_segments && !o.xkeys && sizeof(K) >= 4 && !std::is_floating_point_v<K> && o.size_hint >= 40 && t.chance(1, 10)) {
+        static const size_t blocks[] = {64, 128, 192, 256, 512, 1024, 2048, 4096, 8192, 12288, 16384, 32768, 65536};
+        size_t L = 2 * eps + 2 + t.below(3);
+        i128 jmin = (i128) (L + 2 * eps + 2) * (i128) (2 * eps + 2) * 2;
+        size_t G = blocks[t.below(13)] + t.below(7) - 3;
+        size_t gmax = std::max<size_t>(65, (size_t(1) << 21) / L);
+        i128 room = (lat.hi - lat.lo) / (jmin * 3 + (i128) L);
+        if ((i128) gmax > room) gmax = (size_t) std::max<i128>(room, 2);
+        while (G > gmax) G = G / 2 + t.below(2);
+        meta.threads = o.allow_threads ? 1 + (int) t.below(20) : 1;
+        SplitMix pr(t.bits(64));
+        std::vector<K> keys;
+        keys.reserve(G * L);
+        i128 cur = t.chance(1, 2) ? lat.lo : lat.lo + (i128) t.below(1000);
+        for (size_t g = 0; g < G; ++g) {
+            if (g) cur += jmin + (i128) (pr.next() % (uint64_t) std::min<i128>(jmin, (i128) 1 << 40));
+            if (lat.hi - cur < (i128) L) break;
+            for (size_t i = 0; i < L; ++i) keys.push_back(lat.to_key(cur + (i128) i));
+            cur += (i128) L - 1;
+        }
+        meta.n = keys.size();
+        meta.size_class = "exact_segments";
+        meta.chunks = chunk_count(meta.n, meta.threads);
+        for (size_t i = 1; i < meta.chunks; ++i) meta.seams.push_back(i * (meta.n / meta.chunks));
+        meta.starts_lowest = keys.front() == std::numeric_limits<K>::lowest();
+        meta.query_seed = t.bits(64);
+        rec << "class=exact_segments groups=" << G << "x" << L << " threads=" << meta.threads;
+        meta.recipe = rec.str();
+        for (size_t i = 1; i < keys.size(); ++i)
+            if (keys[i] <= keys[i - 1]) throw HarnessBug("exact_segments class: not strictly increasing");
+        keys.shrink_to_fit();
         return keys;
     }
 
